@@ -3353,6 +3353,38 @@ func (c *Ctx) ruleDoneGate(rule string) {
 	if n == 0 {
 		c.R.Unresolved(rule, "insertion into the client's pending table")
 	}
+	// An insertion never replaces an entry: the caller of the run that holds the ID looks its entry up again when it
+	// collects its result (by run ID), would find the newcomer's entry, and wait on it - for a wake-up that is meant for
+	// somebody else. Every insertion is reached only on the not-found outcome of a lookup of the table (R-ATOMIC has
+	// that lookup and the insertion in one critical section).
+	for _, fn := range c.M.SortedFuncs(c.scopePkg("atp")) {
+		if !c.isMethodOf(fn, ro.clientT) {
+			continue
+		}
+		for _, b := range fn.Blocks {
+			for _, in := range b.Instrs {
+				mu, ok := in.(*ssa.MapUpdate)
+				if !ok || !c.isFieldLoad(mu.Map, ro.clientT, ro.pending) {
+					continue
+				}
+				k := key(rule, c.M.Key(fn), "a run is registered only under an ID that no entry holds")
+				notFound := func(cond core.Cond) bool {
+					ex, ok := cond.V.(*ssa.Extract)
+					if !ok || ex.Index != 1 || cond.True {
+						return false
+					}
+					lk, ok := ex.Tuple.(*ssa.Lookup)
+					return ok && lk.CommaOk && c.isFieldLoad(lk.X, ro.clientT, ro.pending) && c.M.ValPath(lk.Index) == c.M.ValPath(mu.Key)
+				}
+				if core.MustHold(fn, notFound)[b] {
+					c.R.Ok(rule, k, c.M.InstrPos(mu), "insertion into the pending table", "on every path the lookup of the same key found no entry")
+				} else {
+					c.R.Bad(rule, k, c.M.InstrPos(mu), "a run can be registered under an ID whose entry is still in the table",
+						"an entry stays in the table until its caller has collected the result; replacing it (because it 'already has its result') makes that caller find the newcomer's entry, wait on it, and miss the one wake-up: its Execute never returns although its result was delivered")
+				}
+			}
+		}
+	}
 	// The same gate for every Add on the client's WaitGroup: Close sets the done flag under the state mutex and then
 	// waits. An Add made outside that discipline can meet a Wait in progress whose counter has just dropped to zero:
 	// "sync: WaitGroup is reused before previous Wait has returned" (a panic), or a goroutine Close no longer waits for.
